@@ -94,22 +94,40 @@ Proof.
   - destruct a; symmetry; exact Op.
 Qed.
 
-(* A * B *)
-Lemma mul_op_tab (a b : oexpr) : mul_op a b = py_mul vt a (POp b).
+(* the reflected-first relation of the model is the one computed from the class statements *)
+Lemma subclass_radd_tab (b a : cls) : subclass_radd b a = reflected_first_add b a.
+Proof. destruct b, a; reflexivity. Qed.
+Lemma subclass_rmul_tab (b a : cls) : subclass_radd b a = reflected_first_mul b a.
+Proof. destruct b, a; reflexivity. Qed.
+Lemma subclass_radd_funcs (a b : oexpr) : subclass_radd (ocls b) (ocls a) = true ->
+  ofunc b = true /\ ofunc a = false.
 Proof.
-  unfold py_mul. rewrite owner_mul_func. unfold mul_op. destruct (ofunc a) eqn:F; [reflexivity|].
-  destruct a; reflexivity.
+  intros S. destruct b; try destruct fn; destruct a; try destruct fn; cbn in S; try discriminate; split; reflexivity.
+Qed.
+
+(* A * B  (incl. the reflected __rmul__ of a proper subclass, which builds the same object) *)
+Lemma mul_op_tab (a b : oexpr) : mul_op a b = py_mul_op vt a b.
+Proof.
+  unfold py_mul_op.
+  replace (reflected_first_mul (ocls b) (ocls a)) with (subclass_radd (ocls b) (ocls a))
+    by apply subclass_rmul_tab.
+  destruct (subclass_radd (ocls b) (ocls a)) eqn:S.
+  - destruct (subclass_radd_funcs a b S) as [Fb Fa]. unfold py_rmul. rewrite owner_rmul_func, Fb.
+    unfold rmul_functional, t_Functional_rmul. cbn [run ceval do_act cb_super].
+    unfold mul_op. rewrite Fa. reflexivity.
+  - unfold py_mul. rewrite owner_mul_func. unfold mul_op. destruct (ofunc a) eqn:F; [reflexivity|].
+    destruct a; reflexivity.
 Qed.
 
 (* A + B, incl. the reflected __radd__ of a proper subclass *)
 Lemma add_op_tab (a b : oexpr) : add_op a b = py_add vt a (POp b).
 Proof.
-  unfold py_add, add_op. destruct (subclass_radd (ocls b) (ocls a)) eqn:S.
+  unfold py_add, add_op.
+  replace (reflected_first_add (ocls b) (ocls a)) with (subclass_radd (ocls b) (ocls a))
+    by apply subclass_radd_tab.
+  destruct (subclass_radd (ocls b) (ocls a)) eqn:S.
   - unfold py_radd. rewrite owner_radd_func.
-    assert (Fb : ofunc b = true).
-    { destruct b; try destruct fn; destruct a; try destruct fn; cbn in S; try discriminate; reflexivity. }
-    assert (Fa : ofunc a = false).
-    { destruct b; try destruct fn; destruct a; try destruct fn; cbn in S; try discriminate; reflexivity. }
+    destruct (subclass_radd_funcs a b S) as [Fb Fa].
     rewrite Fb. cbn [functional_radd_is_add]. unfold add_functional, t_Functional_add.
     cbn [run ceval]. rewrite Fa. reflexivity.
   - unfold add_direct. rewrite owner_add_func. destruct (ofunc a) eqn:Fa; cbn [andb].
